@@ -219,7 +219,9 @@ impl Index for HnswIndex {
 
         // For Manhattan, request more candidates since L2 ordering != L1 ordering.
         // Reranking from a larger candidate set improves recall.
-        let search_k = if is_manhattan { k * 4 } else { k };
+        let tombstones = self.tombstones.read();
+        let base_k = k.saturating_add(tombstones.len());
+        let search_k = if is_manhattan { base_k * 4 } else { base_k };
         let raw_results = inner.hnsw.search(&prepared_query, search_k, ef_search);
 
         // Map internal indices to tuple IDs using the stored mapping
@@ -232,6 +234,9 @@ impl Index for HnswIndex {
                     let internal_idx = neighbour.d_id;
                     if internal_idx < inner.index_to_tuple_id.len() {
                         let tuple_id = inner.index_to_tuple_id[internal_idx];
+                        if tombstones.contains(&tuple_id) {
+                            return None;
+                        }
                         // Find the stored vector for this tuple_id
                         if let Some((_, stored_vec)) =
                             vectors.iter().find(|(id, _)| *id == tuple_id)
@@ -253,6 +258,9 @@ impl Index for HnswIndex {
                     let internal_idx = neighbour.d_id;
                     if internal_idx < inner.index_to_tuple_id.len() {
                         let tuple_id = inner.index_to_tuple_id[internal_idx];
+                        if tombstones.contains(&tuple_id) {
+                            return None;
+                        }
                         let dist = self.transform_distance(neighbour.distance);
                         Some((tuple_id, dist))
                     } else {
